@@ -90,6 +90,7 @@ def run(ctx, tier, r=None):
     c02b_prot.section_header_protection(ctx, tier, r)
     c02b_prot.section_packet_protection(ctx, tier, r)
     c02b_prot.section_retry(ctx, tier, r)
+    c02b_prot.section_live_sequences(ctx, tier, r)
     c02b_flip.section_bitflip(ctx, tier, r)
 
 
@@ -133,6 +134,6 @@ RULE = (
     "payload sizes 0..max, every case decrypted by the peer context and by the Lean/independent pipeline, plus a "
     "single-bit alteration of each.  bit-flip oracle: every datagram of recorded handshakes (3 suites x 2 "
     "versions, with Retry) and post-handshake flights before/after a key update; quick = every header byte "
-    "^0x01/^0x80/^0xff + PRNG sample of bit positions, thorough = every bit; plus, with FRESH endpoints per alteration (one altered packet first, then the genuine datagram, then the handshake must complete as in the control run): every header byte (first byte, version, DCID, SCID, token, length, pn) ^0x01/^0x80 of the first client datagram at a fresh server (v1, v2), of the first server datagram at the client and of a Retry; and every decrypt attempt of a first-flight server must use Initial keys derived from that packet's own DCID (tie of RecvGate.serverInit).  Non-trivial = a case whose packet "
+    "^0x01/^0x80/^0xff + PRNG sample of bit positions, thorough = every bit; plus, with FRESH endpoints per alteration (one altered packet first, then the genuine datagram, then the handshake must complete as in the control run): every header byte (first byte, version, DCID, SCID, token, length, pn) ^0x01/^0x80 of the first client datagram at a fresh server (v1, v2), of the first server datagram at the client and of a Retry; and every decrypt attempt of a first-flight server must use Initial keys derived from that packet's own DCID (tie of RecvGate.serverInit).  LIVE objects: per suite, apply/remove/encrypt/decrypt SEQUENCES on one HeaderProtection / CryptoContext per key (samples equal, one byte apart at each of the 16 positions, bytes 0..3 only, bytes 4..15 only; genuine right after an altered copy), each call compared with the independent implementation.  LEAD alterations: in every scenario, before every datagram exactly ONE altered copy of each packet (the altered byte rotating over the 16 sample bytes and 4 pn bytes so that every position hits 1-RTT packets of every suite), immediately followed by the genuine datagram, in which the same packets must authenticate as in the control run.  Non-trivial = a case whose packet "
     "is accepted by the peer (round trip) or an altered packet that reached the decrypt decision."
 )
